@@ -25,6 +25,7 @@ def run(ctx: Ctx):
     )
     ctx.not_decided = ["the ordering function as a whole (a combinatorial function of runtime values)"]
     key_lattice(ctx)
+    payload_bogus_ids_domain(ctx)
     anchor_ownership(ctx)
     anchor_table(ctx)
     id_assignment(ctx)
@@ -589,3 +590,27 @@ def order_spec_ids_by_type(ctx: Ctx):
         ctx.ob("explicit-order.ids-as-they-are", where, bad or "conversions are confined to non-shimmed dimension types", "the ids of a shimmed dimension (incl. DATETIME) are not re-interpreted", not bad,
                "a yearly datetime element id is the string '2000': read as the int 2000 it matches no element and the explicit order is ignored")
     ctx.require_min("order-spec id accessors", 3)
+
+
+def payload_bogus_ids_domain(ctx: Ctx):
+    """`PayloadOrderCollator._subtotals_bogus_ids` is paired POSITIONALLY with the negative indexes of the view's insertions (in
+    the view's order): the ids it lists are the view's, in the view's order, FILTERED by what the analysis keeps - the
+    iteration domain of the generator is `subtotals_in_payload_order`, the other collection is only asked for membership."""
+    from ..stmts import resolver
+
+    ci = ctx.repo.opt_cls(COL, "PayloadOrderCollator")
+    where = f"{COL}::PayloadOrderCollator._subtotals_bogus_ids [iteration domain]"
+    m = ctx.repo.lookup(ci, "_subtotals_bogus_ids") if ci is not None else None
+    if m is None:
+        ctx.undecided("payload-order.bogus-ids.domain", where, "member not found", "")
+        return
+    res = resolver(m.node, multi=True)
+    gens = [g for n in ast.walk(m.node) if isinstance(n, (ast.GeneratorExp, ast.ListComp)) for g in n.generators] + [n for n in ast.walk(m.node) if isinstance(n, ast.For)]
+    if len(gens) != 1:
+        ctx.undecided("payload-order.bogus-ids.domain", where, f"{len(gens)} loops / generators", "one generator over the view's insertions")
+        return
+    domains = [u(v) for v in res(gens[0].iter)]
+    view = all("subtotals_in_payload_order" in d for d in domains)
+    analysis = all("subtotals_in_payload_order" not in d and ".subtotals" in d for d in domains)
+    ctx.ob("payload-order.bogus-ids.domain", where, domains[:2], "iterates over self._dimension.subtotals_in_payload_order (the view's insertions, in the view's order)", True if view else (False if analysis else None),
+           "ids listed in the ANALYSIS' definition order are paired with positions counted in the view's order: 'ins_2' stands where insertion 1 is")
